@@ -92,9 +92,11 @@ func (k *KittyImage) Draw(win Window) {
 	}
 	col, row := win.Origin()
 	log.Trace("placing kitty image at cell %d,%d", col, row)
-	// the pid is a 32 bit number where the high 16bits are the width and
-	// the low 16 are the height
-	pid := uint(col)<<16 | uint(row)
+	// the pid is a 32 bit number where the high 16bits are the column and
+	// the low 16 are the row, both counted from 1: a placement id of 0
+	// means "none" to the terminal, deleting it deletes every placement of
+	// the image
+	pid := uint(col+1)<<16 | uint(row+1)
 	writeFunc := func(w io.Writer) {
 		if !atomicLoad(&k.uploaded) {
 			w.Write(k.buf.Bytes())
